@@ -47,6 +47,13 @@ def stepSt (st : St) : String → List Tok → Option (St × List Tok)
   | "@setq", [_, .num n, .num d] => some (st, [.num n, .num d])
   | "@setf", [_, _, .num size, .num e, .vec l] => some (st, [.num size, .num (if size == 0 then 0 else e), .vec l])
   | "@call", _ => some ({ st with opq := true }, [natTok 0])
+  | "@init_set", _ => some ({ st with opq := true }, [natTok 0])
+  | "@defprec", [_] => some (st, [natTok 0])
+  | "@limbs", [.num k, .num _, .num _, .vec l, .num size] =>
+      -- mpz_limbs_finish normalises: value = sign(size) * (the low |size| limbs), high zero limbs stripped
+      let v : Int := Int.ofNat (val (l.take size.natAbs))
+      let v := if size < 0 then -v else v
+      if k.toNat < NZ then some ({ st with s := step st.s (.set k.toNat v), opq := true }, [.num v]) else none
   | "@done", [] =>
       let s1 := clearAll st.s
       some ({ st with s := s1 }, [natTok (s1.ledger.length + s1.breaches)])
